@@ -6,6 +6,7 @@ package ua
 
 import (
 	"fmt"
+	"io"
 	"math"
 	"reflect"
 	"time"
@@ -144,6 +145,11 @@ func decodeSlice(b []byte, val reflect.Value, name string) (int, error) {
 	}
 
 	pos := buf.Pos()
+	// every element takes at least one byte: do not allocate for more
+	// elements than the remaining input can hold
+	if int(n) > len(b)-pos {
+		return pos, io.ErrUnexpectedEOF
+	}
 	// a is a slice of []*Foo
 	a := reflect.MakeSlice(val.Type(), int(n), int(n))
 	for i := 0; i < int(n); i++ {
